@@ -7,7 +7,7 @@ from ..astutil import call_name, calls_in, enclosing_tests, norm, parents, stmts
 from ..report import RuleDef
 from ..src import AnalysisError
 from ..tb import tables
-from ..vg import (App, BoolT, Cmp, Const, DictV, Evaluator, Ite, Obj, Tup,
+from ..vg import (DEG, App, BoolT, Cmp, Const, DictV, Evaluator, Ite, Obj, Tup,
                   assume, contains_unknown, is_num, num_equal, same, show, sym,
                   walk_terms)
 from .common import method_or_fail
@@ -96,7 +96,8 @@ EXC = Cmp('==', INC, sp.Integer(0))
 
 def write_row(m, ci):
     ser, row_writer, par, row_reader, rmod = _funcs(m)
-    ev = Evaluator(m)
+    # (np.atleast_1d is kept as an application of its raw argument, so that a unit conversion in it stays visible)
+    ev = Evaluator(m, hooks={'numpy.atleast_1d': lambda e, a, k: App('numpy.atleast_1d', (a[0],))})
     s = ev.symbolic_instance(ci, 'region')
     s.fields['meta'] = DictV([{'include': INC}])
     out = ev.run(row_writer, [s], {})
@@ -249,8 +250,16 @@ def r3(ctx):
                 probs.append(f'{col.upper()} column holds {show(v, 80)}, not {cfield}.{comp}')
         if 'angle' in m.params_of(ci):
             v = row.fields.get('rotang')
-            if not (isinstance(v, App) and is_num(v.args[0]) and v.args[0] == sym('region.angle')):
+            inner = v.args[0] if isinstance(v, App) and v.args else None
+            in_deg = isinstance(inner, App) and inner.name == 'to' and len(inner.args) == 2 and is_num(inner.args[0]) \
+                and inner.args[0] == sym('region.angle') and is_num(inner.args[1]) and num_equal(inner.args[1], DEG)
+            if not (isinstance(v, App) and (in_deg or (is_num(inner) and inner == sym('region.angle')))):
                 probs.append(f'ROTANG holds {show(v, 80)}, not the angle')
+            elif not in_deg:
+                probs.append('ROTANG holds the angle in whatever unit the region carries: the column takes the unit of its '
+                             'first row, so an angle in hourangle or cycles (Angle("2h")) makes the file writer fail '
+                             '(UnitScaleError: no FITS unit string) and the outcome depends on the order of the list; the FITS '
+                             'region convention has ROTANG in degrees (value.to(u.deg))')
         shp = _const(row.fields.get('shape'), EXC, False)
         key = shp.v.lower() if isinstance(shp, Const) else None
         if key in table:
